@@ -136,17 +136,18 @@ Theorem C07_reapply_example :
 Proof. exact reapply_example. Qed.
 Print Assumptions C07_reapply_example.
 
-
 (* ---- "... and so does applying back what was extracted from the object for a manager's owned
    fields" (Proofs/ExtractBack*.v): at every reachable state, for a manager whose record was
    last written by an Apply, extracting the leaves of its record with the key fields that
-   locate them and applying the extract back without force changes no field and no record --
-   provided the extract is a valid plain configuration and every leaf of the record designates
-   a leaf of the object.  The last proviso is necessary: REFUTED without it at a state
-   reachable in two operations (a applies mmm.k.k, b takes mmm.k.k over by an update: a owns
-   the entry mmm.k only, the extracting walker descends into the entry with the selection of
-   the parent level, finds the inner field of the same name, and a's record gains mmm.k.k) --
-   replayed on the implementation: finding F27. ---- *)
+   locate them (ExtractItems(WithAppendKeyFields)) and applying the extract back without
+   force succeeds, changes no field and no record -- provided the extract is a valid plain
+   configuration (a record leaf that designates an interior node of the object gives a null
+   in the extract, which takes the case out of the plain domain).  Before the repair F27 this
+   was REFUTED at a state reachable in two operations (a applies mmm.k.k, b takes mmm.k.k over
+   by an update: the extracting walker descended into the selected entry mmm.k with the
+   selection of the PARENT level, found the inner field of the same name, and a's record
+   gained mmm.k.k; replayed on the implementation); the model follows the repaired walker and
+   the former witness is kept as an evaluated example. ---- *)
 From Coq Require Import List ZArith String Bool Arith Lia.
 From SMD Require Import Model.Value Model.Order Model.PathElem Model.PathSet Model.Schema Model.Walk
   Model.Validate Model.FieldSet Model.Remove Model.Merge Model.Compare Model.Matcher Model.Reconcile
@@ -175,7 +176,6 @@ Theorem C07_extract_apply_back :
          let ext := extract (schema_of c ver) (tr_of c ver) true live (ps_leaves (mr_set r)) in
          plain ext = true ->
          conforms (schema_of c ver) (tr_of c ver) false ext = true ->
-         leaves_are_leaves (schema_of c ver) (tr_of c ver) live (mr_set r) ->
          prefix_closed (schema_of c ver) (tr_of c ver) (mr_set r) ->
          interior_class (schema_of c ver) (tr_of c ver) (mr_set r) ->
          exists mf'' : managed,
@@ -197,7 +197,6 @@ Theorem C07_extract_apply_back_along_every_history :
              (ps_leaves (mr_set r)) in
          plain ext = true ->
          conforms (schema_of c ver) (tr_of c ver) false ext = true ->
-         leaves_are_leaves (schema_of c ver) (tr_of c ver) (fst (run c ver ops)) (mr_set r) ->
          exists mf'' : managed,
            apply_op c (ver, fst (run c ver ops)) (ver, ext) ver (snd (run c ver ops)) mgr false =
            UOk
@@ -206,7 +205,7 @@ Theorem C07_extract_apply_back_along_every_history :
 Proof. exact extract_apply_back_along_histories_general. Qed.
 Print Assumptions C07_extract_apply_back_along_every_history.
 
-Theorem C07_extract_apply_back_as_stated_refuted :
+Theorem C07_extract_back_former_counterexample :
   setting_ok m_config m_R "v1" /\
          Forall (op_ok m_config "v1") m_ops /\
          dup_free (schema_of m_config "v1") (tr_of m_config "v1") (fst (run m_config "v1" m_ops)) =
@@ -217,18 +216,11 @@ Theorem C07_extract_apply_back_as_stated_refuted :
          (let ext :=
             extract (schema_of m_config "v1") (tr_of m_config "v1") true
               (fst (run m_config "v1" m_ops)) (ps_leaves (mr_set m_rec_a)) in
-          plain ext = true /\
-          conforms (schema_of m_config "v1") (tr_of m_config "v1") false ext = true /\
           ~
           leaves_are_leaves (schema_of m_config "v1") (tr_of m_config "v1")
-            (fst (run m_config "v1" m_ops)) (mr_set m_rec_a) /\
-          ~
-          (exists mf'' : managed,
-             apply_op m_config ("v1", fst (run m_config "v1" m_ops)) (
-               "v1", ext) "v1" (snd (run m_config "v1" m_ops)) "a" false = 
-             UOk (None, mf'') /\ same_records (snd (run m_config "v1" m_ops)) mf'')).
-Proof. exact extract_apply_back_along_histories_as_stated_refuted. Qed.
-Print Assumptions C07_extract_apply_back_as_stated_refuted.
+            (fst (run m_config "v1" m_ops)) (mr_set m_rec_a) /\ plain ext = false).
+Proof. exact former_witness_not_plain. Qed.
+Print Assumptions C07_extract_back_former_counterexample.
 
 Theorem C07_extract_apply_back_record_condition_necessary :
   forall (c : config) (R : typeref -> Prop) (ver : string) (live : value) 
@@ -243,6 +235,31 @@ Theorem C07_extract_apply_back_record_condition_necessary :
          same_records mf mf'' -> ps_equals set0 (mr_set r) = true /\ mr_applied r = true.
 Proof. exact extract_apply_back_record_condition_necessary. Qed.
 Print Assumptions C07_extract_apply_back_record_condition_necessary.
+
+Theorem C07_extract_apply_back_needs_closed_records :
+  let live := hx_obj in
+         let mf := set_applied hx_mf in
+         setting_ok ex_config FieldSetLaws.ex_R "v1" /\
+         state_ok ex_config "v1" live mf /\
+         dup_free (schema_of ex_config "v1") (tr_of ex_config "v1") live = true /\
+         cfg_return_input_on_noop ex_config = false /\
+         mf_get "d" mf = Some u_rec_d /\
+         mr_applied u_rec_d = true /\
+         (let ext :=
+            extract (schema_of ex_config "v1") (tr_of ex_config "v1") true live
+              (ps_leaves (mr_set u_rec_d)) in
+          plain ext = true /\
+          conforms (schema_of ex_config "v1") (tr_of ex_config "v1") false ext = true /\
+          leaves_are_leaves (schema_of ex_config "v1") (tr_of ex_config "v1") live
+            (mr_set u_rec_d) /\
+          interior_class (schema_of ex_config "v1") (tr_of ex_config "v1") (mr_set u_rec_d) /\
+          ~ prefix_closed (schema_of ex_config "v1") (tr_of ex_config "v1") (mr_set u_rec_d) /\
+          ~
+          (exists mf'' : managed,
+             apply_op ex_config ("v1", live) ("v1", ext) "v1" mf "d" false = UOk (None, mf'') /\
+             same_records mf mf'')).
+Proof. exact extract_apply_back_needs_prefix_closed. Qed.
+Print Assumptions C07_extract_apply_back_needs_closed_records.
 
 Theorem C07_extract_back_example :
   mf_get "a" (snd (run ex_config "v1" hx_ops)) = Some xb_rec /\
